@@ -139,7 +139,7 @@ func c17TextCheck(c c17Text) (fs []rep.Finding) {
 
 func init() {
 	p := register(&Prop{ID: "C17", Level: "exploration",
-		Rule: "exhaustive: all 65,025 (version,network) pairs in 1..255 x prefixes {bitcoin-script, bitcoin-template} x payload lengths {0,1,20} (quick) / {0,1,2,20,33,100} (thorough) plus out-of-range fields {0,256,-1}: EncodeBIP276 text byte-identical to the reference layout, decode(encode(x))=x, spec-layout text decodes, ValidateAddress <=> decodes; and for 40 valid encodings (library-made and spec-made) EVERY single-character substitution over the alphabet of ALL printable ASCII characters plus tab, newline, NUL and a non-ASCII letter at every position, every deletion and every insertion (the valid text is decoded first, then the corrupted one): rejected whenever the reference decoder (checksum over the text, hex case-insensitive) rejects. distinct_nontrivial = distinct texts judged",
+		Rule: "exhaustive: all 65,025 (version,network) pairs in 1..255 x prefixes {bitcoin-script, bitcoin-template} x payload lengths {0,1,20} (quick) / {0,1,2,20,33,100} (thorough) plus out-of-range fields {0,256,-1}, and EVERY payload length 0..300 plus 511..513, 1023..1025, 4095..4097, 65535, 65536 for four field pairs: EncodeBIP276 text byte-identical to the reference layout, decode(encode(x))=x, spec-layout text decodes, ValidateAddress <=> decodes; and for 40 valid encodings (library-made and spec-made) EVERY single-character substitution over the alphabet of ALL printable ASCII characters plus tab, newline, NUL and a non-ASCII letter at every position, every deletion and every insertion (the valid text is decoded first, then the corrupted one): rejected whenever the reference decoder (checksum over the text, hex case-insensitive) rejects. distinct_nontrivial = distinct texts judged",
 	})
 	sE := NewSpace(p, "encode", c17EncCheck)
 	sT := NewSpace(p, "text", c17TextCheck)
@@ -159,6 +159,17 @@ func init() {
 				for _, bad := range [][2]int{{0, 1}, {1, 0}, {256, 1}, {1, 256}, {-1, 1}, {1, -1}, {0, 0}, {1000, 1000}} {
 					encs = append(encs, c17Enc{pre, bad[0], bad[1], l})
 				}
+			}
+		}
+		// every payload length 0..300 (and the push-form / buffer boundaries above), a few field values
+		for _, pre := range []string{bscript.PrefixScript, bscript.PrefixTemplate} {
+			for l := 0; l <= 300; l++ {
+				for _, vn := range [][2]int{{1, 1}, {255, 255}, {16, 16}, {1, 2}} {
+					encs = append(encs, c17Enc{pre, vn[0], vn[1], l})
+				}
+			}
+			for _, l := range []int{511, 512, 513, 1023, 1024, 1025, 4095, 4096, 4097, 65535, 65536} {
+				encs = append(encs, c17Enc{pre, 1, 1, l}, c17Enc{pre, 200, 200, l})
 			}
 		}
 		(&Space[c17Enc]{P: p, Name: sE.Name, Check: func(c c17Enc) []rep.Finding {
